@@ -122,8 +122,10 @@ def unwrap(kind, v):
             return v.t
         if v is None:
             return z3.IntVal(NONE_REF)
-        if kind == "text" and v == "":
+        if kind == "text" and isinstance(v, str) and v == "":
             return EMPTY_TEXT
+        if kind == "id":
+            return cur().fresh_int("obj")       # a concrete object stored into an opaque field: some identity
         raise Inapplicable("storing a concrete object into an opaque field")
     raise Inapplicable(f"field kind {kind}")
 
@@ -323,6 +325,24 @@ class SymList(SymIterable):
         if not p.branch(z3.And(idx >= 0, idx < n)):
             raise IndexError("list index out of range")
         return self.elem(sym.mkint(idx))
+
+    def sym_setitem(self, interp, k, v):
+        """lst[k] = v  (k an index, possibly negative literal): the spine with position k replaced"""
+        if isinstance(k, slice) or self.rev:
+            raise Inapplicable("slice / reversed store on a symbolic list")
+        p = cur()
+        n = z3.Length(self.t)
+        idx = zint(k)
+        if isinstance(k, int) and k < 0:
+            idx = n + k
+        if not p.branch(z3.And(idx >= 0, idx < n)):
+            raise IndexError("list assignment index out of range")
+        head = z3.SubSeq(self.t, 0, idx)
+        one = as_seq([v])
+        p.ghost.setdefault("appends", []).append((head, _unit_elem(one)))
+        p.ghost.setdefault("replaced", []).append((self.t, idx))
+        tail = z3.SubSeq(self.t, idx + 1, n - idx - 1)
+        self.t = z3.Concat(head, one) if (isinstance(k, int) and k == -1) else z3.Concat(head, one, tail)
 
     def __bool__(self):
         return cur().branch(z3.Length(self.t) > 0)
